@@ -61,13 +61,17 @@ def entryHandles (f : Forest) (k : MapKind) (e : Nat) : List Nat :=
   | some t => (mapChildren k t).map (·.handle)
   | none => []
 
+/-- The moved node itself when it is a text node (it may be merged with the text node it arrives next to). -/
+def textSelf (f : Forest) (c : Nat) : List Nat := if f.isText c then [c] else []
+
 /-- **The handles whose child list or own value the call may change.** -/
 def XCall.writtenParents (f : Forest) : XCall → List Nat
   | .call (.append p c) | .call (.prepend p c) | .call (.anyAppend p c) | .call (.appendEntryNode _ p c) =>
-    f.siteW (f.parent? c) ++ f.siteW (some p)
-  | .call (.insertAfter r c) | .call (.insertBefore r c) => f.siteW (f.parent? c) ++ f.siteW (f.parent? r)
+    f.siteW (f.parent? c) ++ f.siteW (some p) ++ f.textSelf c
+  | .call (.insertAfter r c) | .call (.insertBefore r c) =>
+    f.siteW (f.parent? c) ++ f.siteW (f.parent? r) ++ f.textSelf c
   | .call (.detach n) | .call (.remove n) | .call (.elementWrap n _) => f.siteW (f.parent? n)
-  | .call (.replace a b) => f.siteW (f.parent? a) ++ f.siteW (f.parent? b)
+  | .call (.replace a b) => f.siteW (f.parent? a) ++ f.siteW (f.parent? b) ++ f.textSelf b
   | .call (.elementUnwrap n) => n :: f.siteW (f.parent? n)
   | .call (.cloneNode _) => []
   | .call (.mapInsert k e _) | .call (.mapRemove k e _) | .call (.mapClear k e) => e :: f.entryHandles k e
@@ -93,13 +97,24 @@ def XCall.movedNodes (f : Forest) : XCall → List Nat
   | .call (.elementUnwrap n) => f.kidHandles n
   | _ => []
 
-/-- The constructors inside the domain of `C05_frame_general`: node creation, `set_text_consolidation` and the
-    four value setters.  LEFT OUT (not proved in the general `get?`-of-the-node form; their frames exist in the
-    `ctx?`-of-the-child form `C05_pair_frame_*`, `C05_map_frame`): the moves (append, prepend, insert_after,
-    insert_before, any_append, append of an entry node), detach, remove, replace, element_wrap, element_unwrap,
-    clone_node, clone_with_prefixes, the map updates, text_content_mut().set(), remove_insignificant_whitespace,
-    create_missing_prefixes, deduplicate_namespaces. -/
+/-- **The handles of the subtree the call moves** (the moved node first).  The nodes strictly inside keep value,
+    children and parent too, but `C05_frame_general` is proved for the nodes OUTSIDE the moved subtree only. -/
+def XCall.movedSubtree (f : Forest) : XCall → List Nat
+  | .call (.append _ c) | .call (.prepend _ c) | .call (.anyAppend _ c) | .call (.appendEntryNode _ _ c)
+  | .call (.insertAfter _ c) | .call (.insertBefore _ c) | .call (.replace _ c) => f.subtreeHandles c
+  | .call (.detach n) | .call (.elementWrap n _) => f.subtreeHandles n
+  | .call (.elementUnwrap n) => f.subtreeHandles n
+  | _ => []
+
+/-- The constructors inside the domain of `C05_frame_general`: append, prepend, insert_after, insert_before, detach,
+    remove, the four value setters, node creation and `set_text_consolidation`.  LEFT OUT (not proved in the general
+    `get?`-of-the-node form; their frames exist in the `ctx?`-of-the-child form `C05_pair_frame_*`, `C05_map_frame`):
+    any_append, append of an entry node, replace, element_wrap, element_unwrap, clone_node, clone_with_prefixes, the map
+    updates, text_content_mut().set(), remove_insignificant_whitespace, create_missing_prefixes,
+    deduplicate_namespaces. -/
 def XCall.framed : XCall → Bool
+  | .call (.append _ _) | .call (.prepend _ _) | .call (.insertAfter _ _) | .call (.insertBefore _ _)
+  | .call (.detach _) | .call (.remove _) => true
   | .call (.setElementName _ _) | .call (.setText _ _) | .call (.setComment _ _) | .call (.setPiData _ _) => true
   | .newNode _ => true
   | .setConsolidation _ => true
@@ -110,15 +125,16 @@ end Forest
 namespace Fmap
 open Forest (MapKind)
 
-/-- **Can the step change the views of `x`?** — the sharp reading.  For a call of the framed domain: the tracked
-    element or one of its children (its entry nodes are among them) is in `writtenParents` or inside a removed
-    subtree.  Otherwise the coarse `touchesEntries`. -/
-def sharpTouches (f : Forest) (x : Nat) : PCall → Bool
-  | .parse _ _ => !f.isLive x
+/-- **Can the step change the views of `x`?** — the sharp reading.  For a call of the framed domain that answers
+    `ok`: the tracked element or one of its children (its entry nodes are among them) is in `writtenParents`, inside a
+    removed subtree or inside the moved subtree.  Otherwise the coarse `touchesEntries`. -/
+def sharpTouches (s : PStore) (x : Nat) : PCall → Bool
+  | .parse _ _ => !s.forest.isLive x
   | .api c =>
-    if c.framed then
-      !f.isLive x || (x :: f.kidHandles x).any (fun a => decide (a ∈ c.writtenParents f ++ c.removedHandles f))
-    else touchesEntries f x (.api c)
+    if c.framed && decide ((c.run s.store).2 = .ok) then
+      !s.forest.isLive x || (x :: s.forest.kidHandles x).any (fun a =>
+        decide (a ∈ c.writtenParents s.forest ++ c.removedHandles s.forest ++ c.movedSubtree s.forest))
+    else touchesEntries s.forest x (.api c)
 
 /-- `mixOk` with `sharpTouches` in the place of `touchesEntries`. -/
 def mixOkSharp (T : List Nat) : PStore → List MixStep → Prop
@@ -127,7 +143,7 @@ def mixOkSharp (T : List Nat) : PStore → List MixStep → Prop
     op.ok s.forest = true ∧ ((∃ x ∈ op.elems, x ∈ T) → ∀ y ∈ op.elems, y ∈ T) ∧
       mixOkSharp T (MixStep.run s (.map op)) rest
   | s, .other c :: rest =>
-    c.wellKinded ∧ (∀ x ∈ T, sharpTouches s.forest x c = false) ∧ mixOkSharp T (MixStep.run s (.other c)) rest
+    c.wellKinded ∧ (∀ x ∈ T, sharpTouches s x c = false) ∧ mixOkSharp T (MixStep.run s (.other c)) rest
 
 instance mixOkSharp.dec (T : List Nat) : ∀ (steps : List MixStep) (s : PStore), Decidable (mixOkSharp T s steps)
   | [], _ => isTrue trivial
@@ -137,7 +153,7 @@ instance mixOkSharp.dec (T : List Nat) : ∀ (steps : List MixStep) (s : PStore)
       mixOkSharp T (MixStep.run s (.map op)) rest))
   | .other c :: rest, s =>
     have := mixOkSharp.dec T rest (MixStep.run s (.other c))
-    (inferInstance : Decidable (c.wellKinded ∧ (∀ x ∈ T, sharpTouches s.forest x c = false) ∧
+    (inferInstance : Decidable (c.wellKinded ∧ (∀ x ∈ T, sharpTouches s x c = false) ∧
       mixOkSharp T (MixStep.run s (.other c)) rest))
 
 end Fmap
